@@ -120,6 +120,14 @@ def match_pipeline(prog, f, V, roles, h, rnd, fmt, fac, problems, part=None):
         return None
     fmt_call = a0.value
     out["fmt_call"] = fmt_call
+    # the cast applied to the input before scaling uses the value type returned by the normaliser (or object): nothing narrower
+    for c in casts3:
+        if c[0] == "astype" and c[1] is not None:
+            want = src(ast.Subscript(value=fmt_call, slice=ast.Constant(value=1), ctx=ast.Load()))
+            if c[1] not in (want, "object", "np.object_"):
+                problems.append(("the input is cast before scaling only to the value type reported by the normaliser (or to Python objects)", "pre-scale cast to %s" % c[1][:70],
+                                 "another value type (e.g. the container's previous one) truncates or narrows the new value before it is rounded"))
+                return None
     # normaliser is called with the funnel's own val / raw parameters
     vp = actual(fmt_call, fmt, [p for p in fmt.params if p != "self"][0])
     rp = actual(fmt_call, fmt, "raw")
